@@ -45,7 +45,8 @@ CompareOK == /\ Compare(s, s) = 0
              /\ \A p \in Pats : /\ Compare(s, p) = 0 - Compare(p, s)
                                 /\ (Compare(s, p) = 0) = (s = p)
                                 /\ Compare(s, s \o p) = 0 - 1
-SubstrOK == \A i \in (0 - Len(s))..(Len(s) + 1) : \A n \in 0..(Len(s) + 1) :
+SubstrOK == kind = "plain" =>            \* (quadratic: on the enumerated strings only, not on their long extensions)
+            \A i \in (0 - Len(s))..(Len(s) + 1) : \A n \in 0..(Len(s) + 1) :
                LET r == Substr(s, i, n) IN
                /\ Len(r) <= n
                /\ (i >= 0 /\ i + n <= Len(s)) => r = Substring(s, i, i + n)
